@@ -601,6 +601,15 @@ def _write_map_fits(hsp_map, filename, clobber=False, nocompress=False):
     c_hdr['NSIDE'] = hsp_map.nside_coverage
 
     s_hdr = _make_header(hsp_map.metadata)
+
+    # Keywords that describe the storage of the map are set below from the map
+    # itself; stale values (e.g. from the header of a file that a parent of
+    # this map was read from) must not be carried over from the metadata.
+    for hdr in (c_hdr, s_hdr):
+        for key in ('WIDEMASK', 'WWIDTH', 'BITPACK', 'PRIMARY', 'RESHAPED', 'BZERO', 'BSCALE'):
+            if key in hdr:
+                del hdr[key]
+
     s_hdr['PIXTYPE'] = 'HEALSPARSE'
     s_hdr['NSIDE'] = hsp_map._nside_sparse
     s_hdr['SENTINEL'] = hsp_map._sentinel
